@@ -84,7 +84,7 @@ def confirm(seed_dir: Path):
 
 def main():
     only = sys.argv[1:]
-    seeds = sorted(p for p in SEED.glob("C*/[0-9]") if (p / "patch.diff").exists() and (p / "demo.py").exists() and (p / "meta.json").exists())
+    seeds = sorted(p for p in SEED.glob("C*/[0-9]*") if (p / "patch.diff").exists() and (p / "demo.py").exists() and (p / "meta.json").exists())
     if only:
         seeds = [s for s in seeds if s.parent.name in only or f"{s.parent.name}-{s.name}" in only]
     with ThreadPoolExecutor(max_workers=int(os.environ.get('CONFIRM_JOBS', '4'))) as ex:
